@@ -55,20 +55,20 @@ def run(tier):
     gen = []
     r2 = rng.fork("hostile")
     prof = hostile_profiles(ck.findings.avoid_tags())[0][1]
-    for i in range(500 if quick else 20000):
+    for i in range(500 if quick else 20000 * common.TS):
         src, mods = progs.generate(r2.fork(str(i)), prof)
         gen.append(("hostile/%d" % i, src, mods))
     r3 = rng.fork("itermut")
-    for i in range(200 if quick else 5000):
+    for i in range(200 if quick else 5000 * common.TS):
         gen.append(("itermut/%d" % i, feat_data.iter_mutation_program(r3.fork(str(i))), []))
     # programs of every feature profile (classes, closures, fibers, exceptions, modules, iteration ...) and multi-run /
     # host-API histories: whatever else they check, none of them may panic, abort or touch freed memory either
     from ..gen import feat_repl, profiles as allp
-    wide = [(n, s_, m_) for n, s_, m_ in allp.gc_workload(rng.fork("profiles"), 300 if quick else 8000)]
+    wide = [(n, s_, m_) for n, s_, m_ in allp.gc_workload(rng.fork("profiles"), 300 if quick else 8000 * common.TS)]
     gen += wide
     histories = []
     r4 = rng.fork("histories")
-    for i in range(120 if quick else 4000):
+    for i in range(120 if quick else 4000 * common.TS):
         steps, hm = (feat_repl.history if i % 2 else feat_repl.host_history)(r4.fork(str(i)))
         histories.append({"name": "history/%d" % i, "steps": steps, "mods": hm, "budget": 3000000})
     ck.coverage["builtin_calls_enumerated"] = ncalls
